@@ -113,6 +113,28 @@ def reference_languages(ctx, rule, spec):
         except Unknown:
             bad = False
         ctx.ob(rule, "per-domain/%s/keeps-ordinary-keys" % d, not bad, "per-domain filter of %s drops ordinary keys (v / id)" % d, site)
+    subdomain_labels(ctx, rule, spec)
+    # '&amp;' spellings
+    rx = U.regex_const(ctx, "ural.utils.MISTAKES_RE")
+    site = repo.mod("utils").site(repo.const_node("ural.utils", "MISTAKES_RE"))
+    try:
+        A = Algebra()
+        cur = A.regex(rx.pattern, rx.flags, "fullmatch")
+        ref = A.regex(r"&[aA][mM][pP](?:;|%3[bB])", 0, "fullmatch")
+        w = A.subset(ref, cur)
+        ctx.ob(rule, "MISTAKES_RE/covers-amp-spellings", w is None, "the spelling %r of '&' is no longer repaired" % w, site, witness=w)
+    except Unsupported as e:
+        ctx.undecided(rule, "MISTAKES_RE: %s" % e)
+    repair_function(ctx, rule)
+    # CONTROL_CHARS
+    from .c02 import control_chars_language
+    control_chars_language(ctx, rule)
+
+
+def subdomain_labels(ctx, rule, spec):
+    """every pinned irrelevant label is matched as a whole label wherever it stands in the host (leading or inner)"""
+    repo = ctx.repo
+    nm = repo.mod("normalize_url")
     # sub-domain labels
     for qual, key in ((NM.SUB_RE, "subdomain_labels"), (NM.SUB_AMP_RE, "subdomain_labels_amp")):
         rx = U.regex_const(ctx, qual)
@@ -132,21 +154,6 @@ def reference_languages(ctx, rule, spec):
                     w = None
                 ctx.ob(rule, "%s/label/%s/%s" % (name, lab, "leading" if host.startswith(lab) else "inner"), w is None,
                        "sub-domain label %r in %r is no longer matched by %s" % (lab, host, name), site, witness=host)
-    # '&amp;' spellings
-    rx = U.regex_const(ctx, "ural.utils.MISTAKES_RE")
-    site = repo.mod("utils").site(repo.const_node("ural.utils", "MISTAKES_RE"))
-    try:
-        A = Algebra()
-        cur = A.regex(rx.pattern, rx.flags, "fullmatch")
-        ref = A.regex(r"&[aA][mM][pP](?:;|%3[bB])", 0, "fullmatch")
-        w = A.subset(ref, cur)
-        ctx.ob(rule, "MISTAKES_RE/covers-amp-spellings", w is None, "the spelling %r of '&' is no longer repaired" % w, site, witness=w)
-    except Unsupported as e:
-        ctx.undecided(rule, "MISTAKES_RE: %s" % e)
-    repair_function(ctx, rule)
-    # CONTROL_CHARS
-    from .c02 import control_chars_language
-    control_chars_language(ctx, rule)
 
 
 def repair_function(ctx, rule):
